@@ -36,13 +36,17 @@ func (ref Reference) SemanticTokens(ctx context.Context) []lang.SemanticToken {
 			continue
 		}
 
-		return semanticTokensForTraversal(eType.Traversal)
+		var src []byte
+		if f, ok := ref.pathCtx.Files[eType.Range().Filename]; ok {
+			src = f.Bytes
+		}
+		return semanticTokensForTraversal(eType.Traversal, src)
 	}
 
 	return []lang.SemanticToken{}
 }
 
-func semanticTokensForTraversal(traversal hcl.Traversal) []lang.SemanticToken {
+func semanticTokensForTraversal(traversal hcl.Traversal, src []byte) []lang.SemanticToken {
 	tokens := make([]lang.SemanticToken, 0)
 
 	for _, t := range traversal {
@@ -92,6 +96,11 @@ func semanticTokensForTraversal(traversal hcl.Traversal) []lang.SemanticToken {
 				},
 			}
 
+			if isLegacyIndexStep(rng, src) {
+				// legacy index (foo.0) has a leading dot but no closing bracket
+				idxRange.End = rng.End
+			}
+
 			if idxRange.End.Column < 1 || idxRange.End.Byte <= idxRange.Start.Byte {
 				// unclosed index (no closing bracket to step back from)
 				continue
@@ -115,4 +124,10 @@ func semanticTokensForTraversal(traversal hcl.Traversal) []lang.SemanticToken {
 	}
 
 	return tokens
+}
+
+// isLegacyIndexStep tells whether the index step of the given range is written
+// in the legacy form (a dot followed by the number, as in foo.0) rather than in brackets
+func isLegacyIndexStep(rng hcl.Range, src []byte) bool {
+	return rng.Start.Byte >= 0 && rng.Start.Byte < len(src) && src[rng.Start.Byte] == '.'
 }
